@@ -670,6 +670,11 @@ class Frame(object):
         if isinstance(node.value, (ast.Yield, ast.YieldFrom)):
             v = self.ev(node.value.value, st) if node.value.value is not None else Const(None)
             if isinstance(node.value, ast.YieldFrom):
+                if isinstance(v, ListV) and not any(isinstance(e, EachV) for e in v.elems):
+                    for e in v.elems:          # `yield from <known sequence>` yields its elements one by one
+                        st.yields.append(e)
+                        st.events.append(('yield', render(e), node.lineno))
+                    return [(st, 'normal')]
                 v = Sym('*' + render(v))
             st.yields.append(v)
             st.events.append(('yield', render(v), node.lineno))
